@@ -177,7 +177,8 @@ class Run:
         if self.errors:
             for e in self.errors:
                 print(f"ANALYSIS-ERROR property={self.prop} {e}")
-            return 2
+            # a concretely located new violation outranks an instance-floor shortfall (which it may itself cause)
+            return 1 if n_viol else 2
         print(f"[{self.prop}] {n_inst} instances over {len(self.rules)} rules: {n_ok} ok, {n_known} known findings, {n_viol} new violations, {n_und} undecided ({wall:.1f}s)")
         return 1 if n_viol else 0
 
